@@ -102,7 +102,10 @@ def r_file_attached(ctx):
             continue
         n += 1
         s = S(ret)
-        ok = 'with_file(' in s or 'parse_from_str(' in s
+        x = ret[1]
+        while isinstance(x, tuple) and x and x[0] in ('field', 'down', 'try'):
+            x = x[1]
+        ok = is_call(x) and x[1].split('::')[-1] in ('with_file', 'parse_from_str')
         ctx.ob(rid, 'new:error-path:%d' % n, ok, 'error path of TemplateProgram::new goes through with_file / ParseFromStr (which attaches the text)', fn.where(), s[:200])
     ctx.floor(rid, 'error paths of TemplateProgram::new', n, 2)
     pf = ctx.anchor(fx, '<A as parse::ParseFromStr>::parse_from_str')
@@ -116,7 +119,10 @@ def r_file_attached(ctx):
     ok = False
     for kind, p, ret in explore(ctx, ins, follow_break=True):
         if kind == 'RET' and ret_kind(ret) == 'residual' and 'compile(' in S(ret):
-            ok = 'with_file(' in S(ret)
+            x = ret[1]
+            while isinstance(x, tuple) and x and x[0] in ('field', 'down', 'try'):
+                x = x[1]
+            ok = is_call(x) and x[1].split('::')[-1] == 'with_file'
     ctx.ob(rid, 'instantiate:with_file', ok, 'compile errors of instantiate carry the file', ins.where())
 
 
